@@ -248,7 +248,8 @@ inductive ROp where
   | touch (i : Nat)
 deriving Repr
 
-/-- what the property quantifies over: timers of owned keys, timestamps an `int64` of nanoseconds since the epoch can hold -/
+/-- what the theorems quantify over: timers of owned keys; `t < 2^63` is Go's own restriction (`time.Time.UnixNano` is
+undefined when the nanoseconds do not fit an `int64`: dates before 1678 or after 2262); `0 ≤ t` is the exclusion of finding D51 -/
 def ROp.valid (kgc start stop : Nat) : ROp → Prop
   | .set key t => start ≤ KeySpace.keyGroup kgc key ∧ KeySpace.keyGroup kgc key < stop ∧ 0 ≤ t ∧ t < 9223372036854775808
   | _ => True
@@ -291,6 +292,18 @@ structure Op where
   batch : List HEv
   maxBatch : Nat
 deriving Repr
+
+/-- the handler's answer to the events of one request, on the specification: every keyed event registers its timers -/
+def specHandle (sp : Spec) (evs : List HEv) : Spec :=
+  evs.foldl (fun sp e => match e with
+    | .keyed k ts => ts.foldl (fun sp t => sp.setTimer k t) sp
+    | .expired _ _ => sp) sp
+
+/-- what the property quantifies over, for an event the operator holds: keyed events of owned keys, timers `0 ≤ t < 2^63` -/
+def HEv.valid (kgc start stop : Nat) : HEv → Prop
+  | .keyed k ts => start ≤ KeySpace.keyGroup kgc k ∧ KeySpace.keyGroup kgc k < stop ∧
+      ∀ t ∈ ts, 0 ≤ t ∧ t < 9223372036854775808
+  | .expired _ _ => True
 
 /-- `processEventBatch(CurrentBatch)`: the handler is told `timerRegistry.watermark`; its new timers go through `SetTimer` -/
 def Op.flush (o : Op) : Op × List Req :=
